@@ -138,9 +138,10 @@ func decodeBinaryValue(reader ByteRuneReader, flag int32) ([]byte, error) {
 		if err != nil {
 			return nil, err
 		}
-		if newLength < length {
+		if newLength <= cap(buf) {
 			buf = buf[:newLength]
-			length = newLength
+		} else {
+			buf = make([]byte, newLength)
 		}
 	}
 
